@@ -305,6 +305,32 @@ def F26():
             return f"track with differing amplitude counts written without error, reads back amplitudes {list(t2.droplets[1].amplitudes)}"
 
 
+def F27():
+    from pde import CylindricalSymGrid, ScalarField
+    from droplets.image_analysis import locate_droplets_in_mask
+    g = CylindricalSymGrid(3, (0, 4), (3, 4))
+    m = np.zeros((3, 4), bool)
+    m[0, 0] = m[0, 1] = m[1, 1] = True
+    em = locate_droplets_in_mask(ScalarField(g, m, dtype=bool))
+    # cell volumes are proportional to 1, 3, 5 for the three radial shells
+    com = (0.5 * 1 + 1.5 * 1 + 1.5 * 3) / 5
+    if len(em) != 1 or abs(em[0].position[2] - com) > 1e-12:
+        return f"cylindrical locate: position z={[float(d.position[2]) for d in em]} is not the centre of mass {com} of the component (cells not weighted by their volume)"
+
+
+def F28():
+    from pde import CylindricalSymGrid, ScalarField
+    from droplets.image_analysis import locate_droplets_in_mask
+    g = CylindricalSymGrid(2, (0, 3), (2, 3))
+    m = np.array([[1, 0, 1], [1, 0, 0]], bool)
+    em = locate_droplets_in_mask(ScalarField(g, m, dtype=bool))
+    for i in range(len(em)):
+        for j in range(i + 1, len(em)):
+            if em[i].overlaps(em[j]):
+                return (f"non-periodic cylindrical grid: returned droplets at z={em[i].position[2]} (r={em[i].radius:.4g}) and "
+                        f"z={em[j].position[2]} (r={em[j].radius:.4g}) overlap as equal-volume spheres")
+
+
 ALL = {k: v for k, v in globals().items() if k[0] == "F" and callable(v)}
 
 if __name__ == "__main__":
